@@ -550,6 +550,11 @@ func CrossPost(
 		return nil, nil, 0, err
 	}
 
+	// the posting rules presuppose that the user may see the target board (hidden boards only ask for PERM_POST)
+	if boardPermStat(user, uid, xBoard, xBid) == ptttype.NBRD_INVALID {
+		return nil, nil, 0, ErrNotPermitted
+	}
+
 	if !hasPostPerm(user, uid, xBoard, xBid) {
 		return nil, nil, 0, ErrPermitNoPost
 	}
